@@ -197,9 +197,24 @@ fn main() -> miette::Result<()> {
                 bytes.extend(stmt.emit()?.to_be_bytes());
             }
 
-            let mut file = File::create(&out_file_name).into_diagnostic()?;
-            file.write_all(&bytes).into_diagnostic()?;
-            file.flush().into_diagnostic()?;
+            // Write next to the destination and rename over it, so that a write which fails
+            // half-way (full disk, quota) leaves the destination as it was as well. Devices
+            // and other special files are written in place.
+            let target = fs::canonicalize(&out_file_name).unwrap_or_else(|_| out_file_name.clone());
+            if fs::metadata(&target).map(|m| !m.is_file()).unwrap_or(false) {
+                let mut file = File::create(&target).into_diagnostic()?;
+                file.write_all(&bytes).into_diagnostic()?;
+            } else {
+                let mut tmp = target.clone().into_os_string();
+                tmp.push(format!(".{}.tmp", std::process::id()));
+                let written = File::create(&tmp)
+                    .and_then(|mut file| file.write_all(&bytes))
+                    .and_then(|_| fs::rename(&tmp, &target));
+                if written.is_err() {
+                    let _ = fs::remove_file(&tmp);
+                }
+                written.into_diagnostic()?;
+            }
 
             message(Green, "Finished", "emit binary");
             file_message(Green, "Saved", &out_file_name);
